@@ -222,6 +222,31 @@ theorem chain_partial (dnfOf : Inner → List (List (Nat × Bool))) (hdnf : ∀ 
       have := ih z hz.1 (hsafe.2 z hs) hr
       exact ⟨this.1, fun ρ => (this.2 ρ).trans (hz.2.1 ρ)⟩
 
+/-! ### round trips and canonicity (corollaries) -/
+
+/-- expression → table → expression gives the function back -/
+theorem expr_table_expr (e : Expr α) (ρ : α → Bool) : (tableToExpr (exprToTable e)).den ρ = e.den ρ := by
+  obtain ⟨hwf, _, hden⟩ := exprToTable_den e
+  rw [tableToExpr_den _ hwf, hden]
+
+/-- two expressions over the same variables that denote one function convert to the same diagram -/
+theorem exprToBdd_canonical (e e' : Expr α) (hsmall : e.inputs.length ≤ maxBddVars)
+    (hin : e.inputs = e'.inputs) (hden : ∀ ρ, e.den ρ = e'.den ρ) :
+    ∃ b, exprToBdd e = .ok (.ok b) ∧ exprToBdd e' = .ok (.ok b) := by
+  obtain ⟨b, hb, hw, hi, hd⟩ := exprToBdd_den e hsmall
+  obtain ⟨b', hb', hw', hi', hd'⟩ := exprToBdd_den e' (hin ▸ hsmall)
+  have : b = b' := Bdd.eq_of_den b b' hw hw' (by rw [hi, hi', hin]) (fun ρ => by rw [hd, hd', hden])
+  exact ⟨b, hb, this ▸ hb'⟩
+
+/-- expression → diagram → table denotes what expression → table denotes -/
+theorem expr_bdd_table (e : Expr α) (hsmall : e.inputs.length ≤ maxBddVars) :
+    ∃ b, exprToBdd e = .ok (.ok b) ∧ (bddToTable b).inputs = (exprToTable e).inputs ∧
+      ∀ ρ, (bddToTable b).den ρ = (exprToTable e).den ρ := by
+  obtain ⟨b, hb, hw, hi, hd⟩ := exprToBdd_den e hsmall
+  obtain ⟨_, hi2, hd2⟩ := bddToTable_den b hw
+  obtain ⟨_, hi3, hd3⟩ := exprToTable_den e
+  exact ⟨b, hb, by rw [hi2, hi, hi3], fun ρ => by rw [hd2, hd, hd3]⟩
+
 /-- non-vacuity: the E→T→E→B→T chain applies to a concrete non-trivial expression -/
 example : (runPath (fun i => i.mintermDnf) [.ET, .TE, .EB, .BT]
     (.E (Expr.or [.and [.lit 0, .not (.lit 1)], .lit 2]) : Obj Nat)).isSome = true := by decide
